@@ -91,7 +91,24 @@ def run(name, checks, tier="quick"):
     return 0
 
 
+def run_all():
+    """regression: every seeded change against the check of its own property"""
+    import glob
+    missed = []
+    for d in sorted(glob.glob(os.path.join(VERIF, "seeded", "*", "meta.json"))):
+        m = json.load(open(d))
+        name, prop = m["name"], m["property"][:3]
+        run(name, [prop])
+        m = json.load(open(d))
+        if m["detected_by"].get(prop) != "DETECTED":
+            missed.append(name)
+    print("MISSED:", missed if missed else "none")
+    return 1 if missed else 0
+
+
 if __name__ == "__main__":
+    if sys.argv[1] == "all":
+        sys.exit(run_all())
     if sys.argv[1] == "confirm":
         sys.exit(confirm(*sys.argv[2:5]))
     tier = "quick"
